@@ -1,13 +1,115 @@
 (* Props/C12.v — the property theorems of C12 and nothing else.
-   C12: sharing transformation work between rules never substitutes a wrong value. *)
+   C12: sharing transformation work between rules never substitutes a wrong value.
+   T is any type of transformations with semantics tf : T -> bytes -> tres (the Go signature
+   func(string) (string, bool, error)); sem maps an interned prefix id to the transformation
+   list it stands for; a tc_call is (rule, argument = (variable, key-pointer identity, value),
+   position) and is chosen by an adversary: colliding key pointers / positions / variables and
+   values that change between rules are all covered by the universal quantification. *)
 From Verif Require Import Base Transform TCache TCacheProofs.
+Local Open Scope nat_scope.
 
 (* one call of transformArg on a cache satisfying the invariant: the rule is evaluated against
-   its own transformation list applied to the current value (and gets that run's errors),
-   whatever the cache holds, and the invariant is kept *)
+   its own transformation list applied to the current value (and is handed exactly that run's
+   errors), whatever the cache holds, and the invariant is kept *)
 Theorem C12_cache_sound : forall (T : Type) (tf : T -> bytes -> tres) (sem : nat -> list T) r a idx st,
   tc_rule_wf T sem r -> tc_cache_inv T tf sem st ->
   forall vs es st', tc_transform_arg T tf r a idx st = (vs, es, st') ->
   (vs, es) = tc_uncached T tf r a /\ tc_cache_inv T tf sem st'.
 Proof. exact tc_transform_arg_sound. Qed.
 Print Assumptions C12_cache_sound.
+
+(* the invariant is preserved over EVERY sequence of calls of a phase and every call returns the
+   uncached result *)
+Theorem C12_cache_inv_preserved : forall (T : Type) (tf : T -> bytes -> tres) (sem : nat -> list T)
+  (cs : list (tc_call T)) st,
+  Forall (fun c => tc_rule_wf T sem (c_rule c)) cs -> tc_cache_inv T tf sem st ->
+  fst (tc_eval_calls T tf cs st) = tc_uncached_calls T tf cs /\
+  tc_cache_inv T tf sem (snd (tc_eval_calls T tf cs st)).
+Proof. exact tc_eval_calls_sound. Qed.
+Print Assumptions C12_cache_inv_preserved.
+
+(* whole transactions: any number of phases (the cache is cleared at the start of each), any
+   starting state: evaluation with the cache = evaluation without *)
+Theorem C12_equals_uncached : forall (T : Type) (tf : T -> bytes -> tres) (sem : nat -> list T)
+  (ps : list (list (tc_call T))) st,
+  Forall (Forall (fun c => tc_rule_wf T sem (c_rule c))) ps ->
+  fst (tc_eval_phases T tf ps st) = map (tc_uncached_calls T tf) ps.
+Proof. exact tc_eval_phases_sound. Qed.
+Print Assumptions C12_equals_uncached.
+
+(* with the input check the result does not even depend on the clearing between phases *)
+Theorem C12_clearing_not_needed : forall (T : Type) (tf : T -> bytes -> tres) (sem : nat -> list T)
+  (ps : list (list (tc_call T))),
+  Forall (Forall (fun c => tc_rule_wf T sem (c_rule c))) ps ->
+  fst (tc_eval_calls T tf (concat ps) tc_empty) = concat (map (tc_uncached_calls T tf) ps).
+Proof. exact tc_no_clear_sound. Qed.
+Print Assumptions C12_clearing_not_needed.
+
+(* fmt.Sprintf("%d+%s", prefix id, name) determines both components *)
+Theorem C12_intern_name_injective : forall p n q m, it_render p n = it_render q m -> p = q /\ n = m.
+Proof. exact it_render_inj. Qed.
+Print Assumptions C12_intern_name_injective.
+
+(* after any history of the process-global intern table, two prefixes of the transformation
+   lists of a rule set get the same id only if they are the same list of names *)
+Theorem C12_intern_injective : forall (hist rules : list (list bytes * bool)) tb' rs,
+  it_compile (fst (it_compile it_init hist)) rules = (tb', rs) ->
+  forall rm1 rm2 k1 k2, In rm1 rs -> In rm2 rs ->
+    k1 < length (ir_names (fst rm1)) -> k2 < length (ir_names (fst rm2)) ->
+    nth k1 (ir_pids (fst rm1)) 0 = nth k2 (ir_pids (fst rm2)) 0 ->
+    firstn (S k1) (ir_names (fst rm1)) = firstn (S k2) (ir_names (fst rm2)).
+Proof.
+  intros hist rules tb' rs H. destruct (it_history_ok hist) as (ch & Hok).
+  exact (it_intern_injective rules _ ch tb' rs Hok H).
+Qed.
+Print Assumptions C12_intern_injective.
+
+(* end to end: rule sets compiled through the intern table (t: lists as written, t:none clears,
+   any registry reg from names to transformations, any history of the table), any phases, any
+   calls of compiled rules: every rule sees its own transformation list applied to the current
+   value of the target *)
+Theorem C12_compiled_equals_uncached : forall (T : Type) (tf : T -> bytes -> tres) (reg : bytes -> T)
+  (hist rules : list (list bytes * bool)) tb' rs,
+  it_compile (fst (it_compile it_init hist)) rules = (tb', rs) ->
+  forall (ps : list (list (tc_call T))) st,
+  Forall (Forall (fun c => In (c_rule c) (map (it_to_rule reg) rs))) ps ->
+  fst (tc_eval_phases T tf ps st) = map (tc_uncached_calls T tf) ps.
+Proof. exact tc_compiled_phases_sound. Qed.
+Print Assumptions C12_compiled_equals_uncached.
+
+(* ---- the three earlier designs violate the statement (documentation of F09, F10, F37, F38) ---- *)
+
+(* lookup by key only (before 95501c1): a repeated argument name at a colliding position *)
+Theorem C12_key_only_refuted :
+  exists cs : list (tc_call tid),
+    Forall (fun c => tc_rule_wf tid tcp_sem1 (c_rule c)) cs /\
+    fst (tc_eval_calls_gen tid tcp_tf_builtin false true cs tc_empty) <> tc_uncached_calls tid tcp_tf_builtin cs.
+Proof. exact tc_key_only_refuted. Qed.
+Print Assumptions C12_key_only_refuted.
+
+(* lookup by key only: MATCHED_VAR changed between two rules *)
+Theorem C12_key_only_stale_refuted :
+  exists cs : list (tc_call tid),
+    Forall (fun c => tc_rule_wf tid tcp_sem1 (c_rule c)) cs /\
+    fst (tc_eval_calls_gen tid tcp_tf_builtin false true cs tc_empty) <> tc_uncached_calls tid tcp_tf_builtin cs.
+Proof. exact tc_key_only_stale_refuted. Qed.
+Print Assumptions C12_key_only_stale_refuted.
+
+(* appending to the cached entry's error slice (before 508c5cb) *)
+Theorem C12_errs_alias_refuted :
+  exists cs : list (tc_call nat),
+    Forall (fun c => tc_rule_wf nat tcp_sem_fail (c_rule c)) cs /\
+    fst (tc_eval_calls_gen nat tcp_tf_fail true false cs tc_empty) <> tc_uncached_calls nat tcp_tf_fail cs.
+Proof. exact tc_errs_alias_refuted. Qed.
+Print Assumptions C12_errs_alias_refuted.
+
+(* '+'-joined chain names (before 8fe3f95): the name "lowercase+trim" gets the id of the chain
+   lowercase, trim *)
+Theorem C12_intern_plus_refuted :
+  exists rules : list (list bytes * bool),
+    let rs := snd (it_compile_gen true it_init rules) in
+    exists rm1 rm2, In rm1 rs /\ In rm2 rs /\
+      nth 1 (ir_pids (fst rm1)) 0 = nth 0 (ir_pids (fst rm2)) 0 /\
+      firstn 2 (ir_names (fst rm1)) <> firstn 1 (ir_names (fst rm2)).
+Proof. exact it_intern_plus_refuted. Qed.
+Print Assumptions C12_intern_plus_refuted.
